@@ -151,34 +151,105 @@ Proof.
   rewrite P. apply Bool.orb_true_r.
 Qed.
 
+(** the field called ID *)
+Lemma id_field_unique d f g :
+  NoDup (map sf_name d) -> In f d -> In g d -> is_id_field f = true -> is_id_field g = true -> f = g.
+Proof.
+  unfold is_id_field. intros Hnd Hf Hg Ef Eg. apply String.eqb_eq in Ef, Eg.
+  induction d as [|x d IH]; [contradiction|]. cbn in Hnd. apply NoDup_cons_iff in Hnd. destruct Hnd as [Hx Hd].
+  destruct Hf as [<-|Hf], Hg as [<-|Hg]; try reflexivity.
+  - exfalso. apply Hx. rewrite Ef, <- Eg. apply in_map. exact Hg.
+  - exfalso. apply Hx. rewrite Eg, <- Ef. apply in_map. exact Hf.
+  - apply IH; assumption.
+Qed.
+
+Lemma find_get_slot (p : sfield -> bool) d : forall vals f,
+  find p d = Some f -> length vals = length d -> exists v, get_slot p d vals = Some (f, v).
+Proof.
+  induction d as [|f0 d IH]; intros [|v vals] f H Hl; cbn [find get_slot] in *; try discriminate.
+  destruct (p f0); [injection H as <-; eauto|]. apply IH; [exact H|cbn in Hl; lia].
+Qed.
+
 Section Accepted.
   Variable d : structdesc.
   Hypothesis Hc : check_struct d = true.
   Hypothesis Hnd : NoDup (map sf_name d).
-  (** the type is not itself called attr / rel / rel,... *)
-  Hypothesis Hidtag : forall f, In f d -> is_id_field f = true -> is_res_tag (sf_api f) = false.
+  (** a field called ID is exported (Go: its name starts with a capital) *)
+  Hypothesis Hexp : forall f, In f d -> is_id_field f = true -> sf_exported f = true.
 
-  Lemma attr_decl n a : In (n, a) (build_attrs d) -> decl d n /\ aname a = n.
+  Lemma id_field_facts : exists idf, In idf d /\ is_id_field idf = true /\ sf_json idf = "id" /\
+                                     sf_type idf = GTAttr 1 false /\ find_field is_id_field d = Some idf.
   Proof.
-    intros Hin. split.
-    - apply (attr_name_declared d n a Hin). intros f Hf Hi E. specialize (Hidtag f Hf Hi).
-      unfold is_res_tag in Hidtag. rewrite E in Hidtag. discriminate.
-    - destruct (build_attrs_from d n a Hin) as [f [_ [_ [_ ->]]]].
-      destruct (get_attr_type _). reflexivity.
+    destruct (af_id d (check_facts d Hc)) as [idf [Hfind [Hj Ht]]].
+    pose proof (find_some _ _ Hfind) as [Hin Hid]. exists idf. auto.
+  Qed.
+
+  (** only the ID field carries the json name "id" *)
+  Lemma json_id_is_id g : In g d -> sf_json g = "id" -> is_id_field g = true.
+  Proof.
+    intros Hg Hj. pose proof (check_facts d Hc) as Hfacts.
+    destruct (is_id_field g) eqn:E; [reflexivity|exfalso].
+    destruct (is_res_tag (sf_api g)) eqn:Er.
+    - assert (Ht : tagged g = true) by (unfold tagged; rewrite E, Er; reflexivity).
+      destruct (af_tagged d Hfacts g Hg Ht) as [_ [_ Hn]]. exact (Hn Hj).
+    - destruct (af_untagged d Hfacts g Hg E Er) as [H|H]; [rewrite Hj in H; discriminate|].
+      apply H. rewrite Hj. left. reflexivity.
+  Qed.
+
+  (** Set("id", s) on any instance *)
+  Lemma set_id_key vals typ attrs rels s :
+    length vals = length d ->
+    exists vals', wrapper_set (mkWrapper d vals typ attrs rels) "id" (VStr s)
+                  = Ok (mkWrapper d vals' typ attrs rels) /\ length vals' = length d.
+  Proof.
+    intros Hl. destruct id_field_facts as [idf [Hin [Hid [Hj [Ht Hfind]]]]].
+    unfold wrapper_set. cbn [String.eqb Ascii.eqb Bool.eqb]. unfold wrapper_set_id. cbn [w_desc w_vals w_typ w_attrs w_rels].
+    change (fun f => String.eqb (sf_name f) "ID") with is_id_field.
+    destruct (find_get_slot is_id_field d vals idf Hfind Hl) as [v Hslot]. rewrite Hslot, Ht. cbn [bind].
+    set (vals1 := set_slot is_id_field d vals (fun _ => VStr s)).
+    assert (Hl1 : length vals1 = length d) by (unfold vals1; rewrite set_slot_length; exact Hl).
+    unfold wrapper_set_field. cbn [w_desc w_vals w_typ w_attrs w_rels].
+    change (String.eqb "id" "") with false. cbv iota.
+    destruct (get_slot_exists (fun f => String.eqb "id" (sf_json f)) d vals1 Hl1) as [g [v0 [Hs [Hg Hp]]]].
+    { exists idf. split; [exact Hin|]. rewrite Hj. reflexivity. }
+    rewrite Hs. apply String.eqb_eq in Hp.
+    assert (Hgid : is_id_field g = true) by (apply json_id_is_id; [exact Hg|symmetry; exact Hp]).
+    rewrite (Hexp g Hg Hgid). cbn [negb].
+    assert (g = idf) by (apply (id_field_unique d g idf Hnd); assumption). subst g.
+    rewrite Ht. cbn. eexists. split; [reflexivity|]. rewrite set_slot_length. exact Hl1.
+  Qed.
+
+  (** the names of the built type: declared by a tagged field, or "id" when
+      the struct's own type name is a resource tag *)
+  Lemma attr_decl n a : In (n, a) (build_attrs d) -> (decl d n \/ n = "id") /\ aname a = n.
+  Proof.
+    intros Hin. destruct (build_attrs_from d n a Hin) as [f [Hf [Hapi [Hj Ha]]]]. split.
+    - destruct (is_id_field f) eqn:E.
+      + right. destruct id_field_facts as [idf [Hin' [Hid [Hj' _]]]].
+        assert (f = idf) by (apply (id_field_unique d f idf Hnd); assumption). subst f. rewrite <- Hj. exact Hj'.
+      + left. exists f. split; [exact Hf|]. split; [|exact Hj].
+        unfold tagged, is_res_tag. rewrite E, Hapi. reflexivity.
+    - rewrite Ha. destruct (get_attr_type _). reflexivity.
   Qed.
 
   Lemma rel_decl typ rels n x : build_rels typ d = Some rels -> In (n, x) rels ->
-    exists f, In f d /\ tagged f = true /\ sf_json f = n /\ rel_of_field typ f = Some x /\ from_name x = n.
+    from_name x = n /\
+    ((exists f, In f d /\ tagged f = true /\ sf_json f = n /\ rel_of_field typ f = Some x) \/
+     (n = "id" /\ to_one x = true)).
   Proof.
     intros Hb Hin. destruct (build_rels_from typ d rels n x Hb Hin) as [f [Hf [Hr Hj]]].
-    exists f. split; [exact Hf|]. split.
-    - unfold tagged. rewrite (rel_of_field_res_tag typ f x Hr), Bool.andb_true_r.
-      destruct (is_id_field f) eqn:E; [|reflexivity].
-      pose proof (rel_of_field_res_tag typ f x Hr) as C.
-      rewrite (Hidtag f Hf E) in C. discriminate.
-    - split; [exact Hj|]. split; [exact Hr|].
-      unfold rel_of_field in Hr. destruct (split_comma (sf_api f)) as [|hd [|target tl2]]; try discriminate.
-      destruct (String.eqb hd "rel"); [|discriminate]. injection Hr as <-. exact Hj.
+    assert (Hfn : from_name x = n).
+    { unfold rel_of_field in Hr. destruct (split_comma (sf_api f)) as [|hd [|target tl2]]; try discriminate.
+      destruct (String.eqb hd "rel"); [|discriminate]. injection Hr as <-. exact Hj. }
+    split; [exact Hfn|].
+    destruct (is_id_field f) eqn:E.
+    - right. destruct id_field_facts as [idf [Hin' [Hid [Hj' [Ht _]]]]].
+      assert (f = idf) by (apply (id_field_unique d f idf Hnd); assumption). subst f.
+      split; [rewrite <- Hj; exact Hj'|].
+      unfold rel_of_field in Hr. destruct (split_comma (sf_api idf)) as [|hd [|target tl2]]; try discriminate.
+      destruct (String.eqb hd "rel"); [|discriminate]. injection Hr as <-. cbn [to_one]. rewrite Ht. reflexivity.
+    - left. exists f. split; [exact Hf|]. split; [|split; [exact Hj|exact Hr]].
+      unfold tagged. rewrite E, (rel_of_field_res_tag typ f x Hr). reflexivity.
   Qed.
 
   Lemma rel_field_type f : In f d -> tagged f = true -> forall typ x, rel_of_field typ f = Some x ->
@@ -225,13 +296,22 @@ Section Accepted.
     rewrite E. exists vals''. split; [reflexivity|exact Hl''].
   Qed.
 
-  Lemma copy_attrs_ok l : (forall n a, In (n, a) l -> decl d n /\ aname a = n) ->
+  Lemma copy_id_ok : forall r, copy_inv r ->
+    copy_inv (bind r (fun nw => bind (wrapper_get w "id") (fun v => wrapper_set nw "id" v))).
+  Proof.
+    intros r [vals' [-> Hl']]. cbn [bind]. unfold wrapper_get at 1. cbn [String.eqb Ascii.eqb Bool.eqb bind].
+    destruct (set_id_key vals' typ attrs rels (wrapper_get_id w) Hl') as [vals'' [E Hl'']].
+    rewrite E. exists vals''. split; [reflexivity|exact Hl''].
+  Qed.
+
+  Lemma copy_attrs_ok l : (forall n a, In (n, a) l -> (decl d n \/ n = "id") /\ aname a = n) ->
     forall r, copy_inv r -> copy_inv (fold_left (copy_attr_step w) l r).
   Proof.
     induction l as [|[n a] l IH]; intros H r Hr; [exact Hr|]. cbn [fold_left]. apply IH.
     - intros n' a' Hin. apply H. right. exact Hin.
-    - destruct (H n a (or_introl eq_refl)) as [Hd Hn]. unfold copy_attr_step. cbn [snd]. rewrite Hn.
-      apply copy_attr_ok; assumption.
+    - destruct (H n a (or_introl eq_refl)) as [[Hd| ->] Hn]; unfold copy_attr_step; cbn [snd]; rewrite Hn.
+      + apply copy_attr_ok; assumption.
+      + apply copy_id_ok; assumption.
   Qed.
 
   Lemma copy_rel_ok typ0 n x : (exists f, In f d /\ tagged f = true /\ sf_json f = n /\
@@ -261,23 +341,28 @@ Section Accepted.
       rewrite E. exists vals''. split; [reflexivity|exact Hl''].
   Qed.
 
+  Lemma copy_rel_id_ok x : from_name x = "id" -> to_one x = true ->
+    forall r, copy_inv r -> copy_inv (copy_rel_step w r ("id", x)).
+  Proof.
+    intros Hfn H1 r [vals' [-> Hl']]. unfold copy_rel_step. cbn [bind snd]. rewrite Hfn, H1.
+    unfold wrapper_get at 1. cbn [String.eqb Ascii.eqb Bool.eqb bind].
+    destruct (set_id_key vals' typ attrs rels (wrapper_get_id w) Hl') as [vals'' [E Hl'']].
+    rewrite E. exists vals''. split; [reflexivity|exact Hl''].
+  Qed.
+
   Lemma copy_rels_ok typ0 l :
-    (forall n x, In (n, x) l -> exists f, In f d /\ tagged f = true /\ sf_json f = n /\
-                                         rel_of_field typ0 f = Some x /\ from_name x = n) ->
+    (forall n x, In (n, x) l -> from_name x = n /\
+       ((exists f, In f d /\ tagged f = true /\ sf_json f = n /\ rel_of_field typ0 f = Some x) \/
+        (n = "id" /\ to_one x = true))) ->
     forall r, copy_inv r -> copy_inv (fold_left (copy_rel_step w) l r).
   Proof.
     induction l as [|[n x] l IH]; intros H r Hr; [exact Hr|]. cbn [fold_left]. apply IH.
     - intros n' x' Hin. apply H. right. exact Hin.
-    - apply (copy_rel_ok typ0 n x); [apply H; left; reflexivity|exact Hr].
+    - destruct (H n x (or_introl eq_refl)) as [Hfn [[f [Hf [Ht [Hj Hrf]]]]|[-> H1]]].
+      + apply (copy_rel_ok typ0 n x); [exists f; auto|exact Hr].
+      + apply copy_rel_id_ok; assumption.
   Qed.
 End Accepted.
-
-Lemma find_get_slot (p : sfield -> bool) d : forall vals f,
-  find p d = Some f -> length vals = length d -> exists v, get_slot p d vals = Some (f, v).
-Proof.
-  induction d as [|f0 d IH]; intros [|v vals] f H Hl; cbn [find get_slot] in *; try discriminate.
-  destruct (p f0); [injection H as <-; eauto|]. apply IH; [exact H|cbn in Hl; lia].
-Qed.
 
 Lemma zero_vals_length d : length (zero_vals d) = length d.
 Proof. unfold zero_vals. apply map_length. Qed.
@@ -285,7 +370,7 @@ Proof. unfold zero_vals. apply map_length. Qed.
 (** Copy and New of an accepted struct succeed *)
 Theorem copy_checked_ok d vals w :
   check_struct d = true -> NoDup (map sf_name d) ->
-  (forall f, In f d -> is_id_field f = true -> is_res_tag (sf_api f) = false) ->
+  (forall f, In f d -> is_id_field f = true -> sf_exported f = true) ->
   length vals = length d -> Forall2 slot_typed d vals ->
   wrap d vals = Ok w ->
   (exists w', wrapper_copy w = Ok w' /\ w_desc w' = d /\ w_typ w' = w_typ w /\
@@ -310,9 +395,9 @@ Proof.
   set (nw1 := Ok (mkWrapper d _ (struct_type_name d) (build_attrs d) rels)).
   assert (I1 : copy_inv d (struct_type_name d) (build_attrs d) rels nw1).
   { eexists. split; [reflexivity|]. rewrite set_slot_length. apply zero_vals_length. }
-  pose proof (copy_attrs_ok d Hc Hnd vals Hl Hty (struct_type_name d) (build_attrs d) rels (build_attrs d)
-                (fun n a Hin => attr_decl d Hid n a Hin) nw1 I1) as I2.
-  pose proof (copy_rels_ok d Hc Hnd vals Hl Hty (struct_type_name d) (build_attrs d) rels (struct_type_name d) rels
-                (fun n x Hin => rel_decl d Hid (struct_type_name d) rels n x Hrels Hin) _ I2) as [vals' [E _]].
+  pose proof (copy_attrs_ok d Hc Hnd Hid vals Hl Hty (struct_type_name d) (build_attrs d) rels (build_attrs d)
+                (fun n a Hin => attr_decl d Hc Hnd n a Hin) nw1 I1) as I2.
+  pose proof (copy_rels_ok d Hc Hnd Hid vals Hl Hty (struct_type_name d) (build_attrs d) rels (struct_type_name d) rels
+                (fun n x Hin => rel_decl d Hc Hnd (struct_type_name d) rels n x Hrels Hin) _ I2) as [vals' [E _]].
   rewrite E. eexists. split; [reflexivity|]. cbn. repeat split.
 Qed.
